@@ -55,10 +55,6 @@ func (h *Heap[T]) IsEmpty() bool {
 
 // Clear removes all the elements from the heap.
 func (h *Heap[T]) Clear() {
-	if h.Size() == 0 {
-		return
-	}
-
 	h.mu.Lock()
 	h.data = h.data[:0]
 	h.mu.Unlock()
